@@ -55,6 +55,7 @@ class Contract:
         self.result_fn = None
         self.ghosts = OrderedDict()
         self.fragment = None
+        self.scenario = None
 
     # -- builder API ----------------------------------------------------------
     def param(self, name, sort, default=None):
@@ -187,8 +188,27 @@ def snap(v, memo):
 
 
 def contract(key, props=(), inline=False):
-    c = Contract(key, props, inline)
+    """`key` may carry a '#variant' suffix: several contracts (input classes) on one function."""
+    base = key.split("#")[0]
+    c = Contract(base, props, inline)
+    c.key = key
+    if "#" in key:
+        c.short = c.qualname + "#" + key.split("#")[1]
+        c.inline = True
     REGISTRY[key] = c
+    return c
+
+
+def scenario(modname, name, source, props=()):
+    """A loop-free harness (operation sequence) written in the sidecar and executed
+    by the same engine with the bodies of the real functions it calls taken from
+    the repository.  Only the harness text is ours; everything it calls is real."""
+    import textwrap
+    c = Contract("%s:%s" % (modname, name), props, inline=True)
+    c.key = "%s:scenario.%s" % (modname, name)
+    c.short = "scenario." + name
+    c.scenario = textwrap.dedent(source)
+    REGISTRY[c.key] = c
     return c
 
 
